@@ -250,6 +250,9 @@ structure DealIn where
   boundsOk : Bool
   /-- verified deal: the client's remaining datacap covers the piece -/
   dcOk : Bool
+  /-- the provider address written in the deal is the first deal's provider (its ID form, or the
+      very form used by the first deal) -/
+  providerMatches : Bool
   deriving Repr, DecidableEq, Inhabited
 
 /-- `validate_deal` (the parts the properties depend on are explicit) -/
@@ -266,17 +269,20 @@ structure Sel where
   accepted : List (Nat × Proposal) := []
   deriving Repr, Inhabited
 
+/-- the proposal as stored on chain: provider (and client) normalised to ID addresses -/
+def normalise (provider : Nat) (d : Proposal) : Proposal := { d with provider := provider }
+
 /-- one iteration of the selection loop; `none` = deal dropped -/
 def selectOne (s : State) (provider : Nat) (acc : Sel) (di : DealIn) : Option (Int × Int) :=
   if !dealValid s.epoch di then none
-  else if di.d.provider ≠ provider then none
+  else if !di.providerMatches then none
   else
     let cl := bal acc.clientLockup di.d.client + di.d.clientReq
     if !balanceCovered s di.d.client cl then none
     else
       let pl := acc.providerLockup + di.d.providerColl
       if !balanceCovered s provider pl then none
-      else if di.d ∈ s.pending ∨ di.d ∈ acc.seen then none
+      else if normalise provider di.d ∈ s.pending ∨ normalise provider di.d ∈ acc.seen then none
       else if di.d.verified && !di.dcOk then none
       else some (cl, pl)
 
@@ -289,8 +295,8 @@ def selectDeals (s : State) (provider : Nat) : List DealIn → Nat → Sel → S
       selectDeals s provider rest (i + 1)
         { clientLockup := aset di.d.client cl acc.clientLockup,
           providerLockup := pl,
-          seen := acc.seen ++ [di.d],
-          accepted := acc.accepted ++ [(i, di.d)] }
+          seen := acc.seen ++ [normalise provider di.d],
+          accepted := acc.accepted ++ [(i, normalise provider di.d)] }
 
 /-- `next_update_epoch` (Rust `%` and `/` truncate) -/
 def nextUpdateEpoch (id : Nat) (interval : Int) (earliest : Int) : Int :=
@@ -322,6 +328,8 @@ def publishAll : State → List Proposal → Except Err (State × List Nat)
       | .ok (s2, ids) => .ok (s2, id :: ids)
 
 structure PublishEnv where
+  /-- ID of the first deal's provider -/
+  provider : Nat
   /-- the first deal's provider resolves -/
   providerResolves : Bool
   providerIsMiner : Bool
@@ -341,12 +349,12 @@ structure PublishRet where
 def publish (s : State) (env : PublishEnv) (deals : List DealIn) : Except Err (State × PublishRet) :=
   match deals with
   | [] => .error .illegalArgument
-  | first :: _ =>
+  | _ :: _ =>
     if !env.providerResolves then .error .notFound
     else if !env.providerIsMiner then .error .illegalArgument
     else if !env.callerControls then .error .forbidden
     else
-      let sel := selectDeals s first.d.provider deals 0 {}
+      let sel := selectDeals s env.provider deals 0 {}
       if !env.datacapOk && sel.accepted.any (fun p => p.2.verified) then .error .illegalState
       else if sel.accepted.isEmpty then .error .illegalArgument
       else match publishAll s (sel.accepted.map (·.2)) with
@@ -682,7 +690,9 @@ inductive Op where
   | activate (caller : Nat) (callerIsMiner : Bool) (sectors : List SectorDeals)
   | scc (caller : Nat) (callerIsMiner : Bool) (sectors : List SectorChanges)
   | settle (ids : List Nat) (burnOk : Bool)
-  | terminate (caller : Nat) (callerIsMiner : Bool) (slashEpoch : Int) (sectors : List Nat) (burnOk : Bool)
+  /-- the `epoch` parameter of OnMinerSectorsTerminate is not part of the op: the only possible
+      caller, the miner actor (`request_terminate_deals`), always passes the current epoch -/
+  | terminate (caller : Nat) (callerIsMiner : Bool) (sectors : List Nat) (burnOk : Bool)
   | cron (callerIsCron : Bool) (burnOk : Bool)
   deriving Repr, Inhabited
 
@@ -723,8 +733,8 @@ def step (s : State) : Op → State × Out
     match settle s ids b with
     | .ok (s', r) => (s', .settled r)
     | .error e => (s, .err e)
-  | .terminate c m se secs b =>
-    match terminate s c m se secs b with
+  | .terminate c m secs b =>
+    match terminate s c m s.epoch secs b with
     | .ok s' => (s', .ok)
     | .error e => (s, .err e)
   | .cron c b =>
